@@ -134,7 +134,8 @@ def build() -> Check:
                     bad.append((f"identifier.parent_id = {p.data.get('parent_id')} (must name the enclosing context)", t))
             for e in t.kinds("BATCH_HANDLER"):
                 if e.data["context_parent"] != "id#1" or e.data["operation_id"] != "id#1":
-                    bad.append((f"the branch-owning context has parent {e.data['context_parent']} (operation id {e.data['operation_id']})", t))
+                    bad.append((f"the branch-owning context is not a context freshly built for this call with the call's id as parent "
+                                f"(parent {e.data['context_parent']}, operation id {e.data['operation_id']}): cached/shared contexts share the call counter", t))
             for e in user_events(t, "user"):
                 for a in e.data.get("arg_values") or []:
                     if isinstance(a, Obj) and a.cls_name == "DurableContext":
